@@ -12,7 +12,24 @@ struct FlatSection { std::string name; int kind; std::vector<double> v; std::str
 struct FlatObs { std::string op; std::vector<FlatSection> sec; };
 }
 
+#ifndef SIM_SECONDARY_TU
+extern "C" void tsgBatchGetInterpolationWeightsStatic(void *grid, const double *x, int num_x, double *weights); // C interface: its own parallel loop over the points
+#endif
+
 namespace tsgsim {
+
+// interpolation weights for a batch of points: the OpenMP build goes through the C interface (which runs the per-point const queries
+// in a parallel loop of its own), the serial reference calls the per-point query in a loop
+inline std::vector<double> batchInterpolationWeights(TasmanianSparseGrid &g, const std::vector<double> &X) {
+    int d = g.getNumDimensions(), nx = (int)(X.size() / (size_t)d), np = g.getNumPoints();
+    std::vector<double> w((size_t)nx * (size_t)np);
+#ifndef SIM_SECONDARY_TU
+    tsgBatchGetInterpolationWeightsStatic((void *)&g, X.data(), nx, w.data());
+#else
+    for (int i = 0; i < nx; i++) g.getInterpolationWeights(&X[(size_t)i * (size_t)d], &w[(size_t)i * (size_t)np]);
+#endif
+    return w;
+}
 
 inline sim::FlatObs flatten(const std::string &op, const Obs &o) {
     sim::FlatObs f; f.op = op;
@@ -44,6 +61,7 @@ inline std::vector<sim::FlatObs> runHistory(const sim::Json &p) {
             if ((g.isGlobal() && !TasGrid::OneDimensionalMeta::isNonNested(g.getRule())) || g.isSequence() || g.isFourier()) { try { std::vector<int> w; g.estimateAnisotropicCoefficients(TasGrid::type_iptotal, 0, w); x.exacti("aniso_coeffs", w); } catch (std::exception &e) { x.str("aniso_coeffs", e.what()); } }
             if (g.isGlobal() || g.isSequence()) { x.exacti("poly_space_i", g.getGlobalPolynomialSpace(true)); x.exacti("poly_space_q", g.getGlobalPolynomialSpace(false)); }
         }
+        if (g.getNumPoints() <= 200) x.round("batch_interpolation_weights", batchInterpolationWeights(g, std::vector<double>(X.begin(), X.begin() + 4 * d)));
         x.round("hier_functions9", g.evaluateHierarchicalFunctions(X));
         x.round("hier_support", g.getHierarchicalSupport());
         { std::vector<double> q((size_t)g.getNumPoints()); g.integrateHierarchicalFunctions(q.data()); x.round("hier_integrals", q); }
